@@ -137,7 +137,8 @@ class TrS:
                 if ta == tb == 'str':
                     self.uses_resolve = True
                     return "(resolve %s %s)" % (a, b), 'str'
-            fkey = f.id if isinstance(f, ast.Name) else ('self.' + f.attr if isinstance(f, ast.Attribute) and isinstance(f.value, ast.Name) and f.value.id == 'self' else None)
+            fkey = f.id if isinstance(f, ast.Name) else ('self.' + f.attr if isinstance(f, ast.Attribute) and isinstance(f.value, ast.Name)
+                                                         and f.value.id in ('self', self.consts.get('__class__')) else None)
             if fkey is not None and isinstance(self.consts.get(fkey), tuple) and self.consts[fkey][0] == 'func':
                 # a function of the same module / a method of the same class that was itself translated: monadic call, bound before the statement
                 # (so not under a lazy operator); a method receives the object's attributes it may read as leading arguments
@@ -163,7 +164,10 @@ class TrS:
                     cargs.append(c)
                 self.fresh += 1
                 v = "r_%d" % self.fresh
-                selfargs = ["self" + k[5:] for k in self.env if k.startswith('self.')] if fkey.startswith('self.') else []
+                need = self.consts[fkey][5] if len(self.consts[fkey]) > 5 else []       # the attributes the callee reads
+                if any(k not in self.env for k in need):
+                    raise Untranslatable("callee %s reads an attribute the caller does not have" % fkey)
+                selfargs = ["self" + k[5:] for k in need]
                 self.hoist.append("let %s ← %s %s" % (v, lname, " ".join(selfargs + cargs)))
                 return v, rty
             if isinstance(f, ast.Attribute) and f.attr == 'search' and isinstance(f.value, ast.Name) and len(n.args) == 1 and not n.keywords \
@@ -189,6 +193,13 @@ class TrS:
             raise Untranslatable("call " + ast.dump(n)[:120])
         if isinstance(n, ast.Compare) and len(n.ops) == 1:
             l, op, r = n.left, n.ops[0], n.comparators[0]
+            if isinstance(op, (ast.In, ast.NotIn)) and isinstance(r, (ast.List, ast.Tuple)) and r.elts:
+                a, ta = self.expr(l)                      # `x in [A, B, C]` with string elements: a disjunction of equalities
+                elts = [self.expr(e) for e in r.elts]
+                if ta == 'str' and all(t == 'str' for _, t in elts):
+                    e = "(" + " || ".join("(%s == %s)" % (a, c) for c, _ in elts) + ")"
+                    return (e if isinstance(op, ast.In) else "(!%s)" % e), 'bool'
+                raise Untranslatable("membership in a list of non-strings")
             # x[-1] == "c"  /  x[-1] != "c"
             if isinstance(l, ast.Subscript) and not isinstance(l.slice, ast.Slice) and isinstance(op, (ast.Eq, ast.NotEq)):
                 idx = l.slice
@@ -206,6 +217,8 @@ class TrS:
                 if tx == 'str':     # a plain string is never None
                     return ("true" if isinstance(op, ast.IsNot) else "false"), 'bool'
             (a, ta), (b, tb) = self.expr(l), self.expr(r)
+            if False:
+                pass
             if isinstance(op, (ast.In, ast.NotIn)) and ta == 'str' and tb == 'strdict':
                 e = "(PyOps.dictHas %s %s)" % (b, a)
                 return (e if isinstance(op, ast.In) else "(!%s)" % e), 'bool'
